@@ -11,8 +11,27 @@ thread_local! {
 pub const WRITE_BIT: u8 = 0x80;
 
 #[derive(PartialEq, Eq, Hash, PartialOrd, Ord)]
-#[cfg_attr(feature = "it-deser", derive(serde::Serialize, serde::Deserialize))]
 pub struct Payload(pub u8);
+
+/// Payload 0 serialises as the unit value (`null` in JSON), like `()` or `Option::None` would:
+/// a live payload whose own serialised form is "nothing" must still come back as a live payload.
+#[cfg(feature = "it-deser")]
+impl serde::Serialize for Payload {
+    fn serialize<S: serde::Serializer>(&self, s: S) -> Result<S::Ok, S::Error> {
+        if self.0 == 0 {
+            s.serialize_none()
+        } else {
+            s.serialize_some(&self.0)
+        }
+    }
+}
+#[cfg(feature = "it-deser")]
+impl<'de> serde::Deserialize<'de> for Payload {
+    fn deserialize<D: serde::Deserializer<'de>>(d: D) -> Result<Self, D::Error> {
+        let v: Option<u8> = Option::deserialize(d)?;
+        Ok(Payload(v.unwrap_or(0)))
+    }
+}
 
 impl Clone for Payload {
     fn clone(&self) -> Self {
